@@ -196,14 +196,34 @@ impl TypeCollector {
     ) -> Vec<EventContext> {
         let type_resolver = analyzer.get_type_resolver();
 
-        events
+        // One listener per distinct event name: an event emitted from several places is still
+        // one event (the first emission site provides the payload type)
+        let mut seen_events = std::collections::HashSet::new();
+        let mut contexts: Vec<EventContext> = events
             .iter()
+            .filter(|event| seen_events.insert(event.event_name.clone()))
             .map(|event| {
                 EventContext::new(config).from_event_info(event, visitor, &|rust_type: &str| {
                     type_resolver.borrow_mut().parse_type_structure(rust_type)
                 })
             })
-            .collect()
+            .collect();
+
+        // Different event names can map to the same identifier ("note-saved" / "note_saved"):
+        // number the later ones so that every listener keeps a unique function name
+        let mut used_names = std::collections::HashSet::new();
+        for context in &mut contexts {
+            let base = context.ts_function_name.clone();
+            let mut candidate = base.clone();
+            let mut counter = 2;
+            while !used_names.insert(candidate.clone()) {
+                candidate = format!("{}{}", base, counter);
+                counter += 1;
+            }
+            context.ts_function_name = candidate;
+        }
+
+        contexts
     }
 
     /// Create StructContext instances from StructInfo using the provided visitor
